@@ -312,6 +312,12 @@ impl Report {
 }
 
 /// run `f` on `threads` workers, each with its own model driver and PRNG stream; merge the reports
+thread_local! {
+    /// index of the worker thread inside `parallel` (0 outside): lets generators place their rare, expensive
+    /// cases deterministically (a given worker, a given case number) instead of racing for a global budget
+    pub static WORKER_IX: std::cell::Cell<usize> = std::cell::Cell::new(0);
+}
+
 pub fn parallel<F>(driver: &str, threads: usize, seed: u64, base: Report, f: F) -> Report
 where
     F: Fn(usize, &mut Driver, &mut Rng, &mut Report) + Sync,
@@ -326,6 +332,7 @@ where
                     let mut d = Driver::spawn(driver);
                     let mut rng = Rng::new(seed.wrapping_mul(1000003).wrapping_add(t as u64));
                     let mut r = Report::new(&prop, "");
+                    WORKER_IX.with(|w| w.set(t));
                     f(t, &mut d, &mut rng, &mut r);
                     r
                 })
